@@ -148,19 +148,75 @@ Proof. exact member_read_is_model_l. Qed.
 Print Assumptions generated_member_read_is_model.
 
 (* ---- the read path of float / double / quad arrays (ExpressionEvaluator::evaluate_typed_expression_internal,
-        evaluator/core/evaluator.cpp) accumulates the flat index WITHOUT testing the indices against their dimensions: on
-        extents (2, 3) the indices (0, 3) - outside - yield the cell of (1, 0).  Known finding
-        C05-float-array-read-no-per-dimension-check, confirmed on the real binary (double[2][3] m; m[0][3] reads m[1][0]). ---- *)
-Theorem generated_float_read_checks_every_dimension_refuted :
-  exists dims idxs, ~ FlatIndex.in_range dims idxs /\
-    call_float_read 3 dims idxs = RVal (TInt, FlatIndex.row_major dims [1; 0]) /\ call_float_read 3 dims [1; 0] = RVal (TInt, 3).
-Proof. exact float_read_unchecked_refuted_l. Qed.
-Print Assumptions generated_float_read_checks_every_dimension_refuted.
+        evaluator/core/evaluator.cpp), regenerated from the branch `if (var->is_multidimensional && indices.size() > 1)` up to
+        the end of its for loop.  Since fix 3f94fc1 (finding C05-float-array-read-no-per-dimension-check) the loop tests every
+        index against its own dimension.  It compares the int64_t subscripts themselves ([indices64_int_ok]: ANY int64_t
+        values, their number <= INT_MAX), accumulates in int through long, and multiplies `multiplier` only while d > 0.
+        [call_float_read fuel dims idxs]: the branch entered with indices = idxs, var->array_dimensions = dims; the loop runs
+        over the SUBSCRIPTS, so the fuel is measured against their number. ---- *)
+(* an element read (at least as many subscripts as dimensions): exactly Model.calc_flat - the row-major cell, or the
+   rejection "Array index out of bounds" (also for a subscript beyond the last dimension) - never undefined behaviour *)
+Theorem generated_float_read_is_model : forall dims idxs fuel,
+  extents_ok dims -> indices64_int_ok idxs -> (List.length idxs < fuel)%nat -> (List.length dims <= List.length idxs)%nat ->
+  call_float_read fuel dims idxs =
+  match Model.calc_flat dims idxs with
+  | Some k => RVal (TInt, k)
+  | None => RThrow "Array index out of bounds"
+  end.
+Proof. exact float_read_full_rank_is_model_l. Qed.
+Print Assumptions generated_float_read_is_model.
+
+(* accepted exactly when every index lies inside its dimension, and then it is the row-major cell (the law the repaired
+   finding broke: the former witness is [generated_float_read_former_witness_rejected] below) *)
+Theorem generated_float_read_checks_every_dimension : forall dims idxs fuel k,
+  extents_ok dims -> indices64_int_ok idxs -> (List.length idxs < fuel)%nat -> (List.length dims <= List.length idxs)%nat ->
+  (call_float_read fuel dims idxs = RVal (TInt, k) <-> FlatIndex.in_range dims idxs /\ k = FlatIndex.row_major dims idxs).
+Proof. exact (fun dims idxs fuel k => float_read_accepts_iff_l dims idxs fuel k). Qed.
+Print Assumptions generated_float_read_checks_every_dimension.
+
+(* for ANY number of subscripts: the model on the leading dimensions; no undefined behaviour, enough fuel *)
+Theorem generated_float_read_any_rank_is_model : forall dims idxs fuel,
+  extents_ok dims -> indices64_int_ok idxs -> (List.length idxs < fuel)%nat ->
+  call_float_read fuel dims idxs =
+  match Model.calc_flat (firstn (List.length idxs) dims) idxs with
+  | Some k => RVal (TInt, k)
+  | None => RThrow "Array index out of bounds"
+  end.
+Proof. exact float_read_is_model_l. Qed.
+Print Assumptions generated_float_read_any_rank_is_model.
+
+Theorem generated_float_read_ub_free : forall dims idxs fuel,
+  extents_ok dims -> indices64_int_ok idxs -> (List.length idxs < fuel)%nat ->
+  match call_float_read fuel dims idxs with
+  | RVal (TInt, z) => -2147483648 <= z <= 2147483647
+  | RThrow _ => True
+  | _ => False
+  end.
+Proof. exact float_read_ub_free_l. Qed.
+Print Assumptions generated_float_read_ub_free.
+
+(* was generated_float_read_checks_every_dimension_refuted: on extents (2, 3) the indices (0, 3) yielded the cell of (1, 0) *)
+Theorem generated_float_read_former_witness_rejected :
+  call_float_read 3 [2; 3] [0; 3] = RThrow "Array index out of bounds" /\ call_float_read 3 [2; 3] [1; 0] = RVal (TInt, 3) /\
+  call_float_read 3 [2; 3] [1; -1] = RThrow "Array index out of bounds".
+Proof. exact float_read_former_witness_rejected_l. Qed.
+Print Assumptions generated_float_read_former_witness_rejected.
+
+(* still open: the branch never compares the number of subscripts with the number of dimensions, so FEWER subscripts than
+   dimensions are accepted (the integer paths throw "Dimension mismatch"): two subscripts (1, 0) on extents (2, 3, 2) yield
+   cell 3, the cell of (0, 1, 1).  Known finding C05-float-array-read-fewer-subscripts-accepted, confirmed on the real binary
+   (double[2][3][2] m; m[0][1][1] = 7.5; println(m[1][0]) prints 7.5). *)
+Theorem generated_float_read_rejects_rank_mismatch_refuted :
+  exists dims idxs, (List.length idxs < List.length dims)%nat /\ Model.calc_flat dims idxs = None /\
+    call_float_read 3 dims idxs = RVal (TInt, FlatIndex.row_major dims [0; 1; 1]).
+Proof. exact float_read_fewer_subscripts_refuted_l. Qed.
+Print Assumptions generated_float_read_rejects_rank_mismatch_refuted.
 
 (* ---- non-vacuity: the side conditions are satisfiable, fuel is really needed, and concrete calls compute ---- *)
-Example side_conditions_example : extents_ok [2; 3; 4] /\ indices_ok [1; 2; 3] /\ indices_ok [1; -7; 2147483647; 0].
+Example side_conditions_example : extents_ok [2; 3; 4] /\ indices_ok [1; 2; 3] /\ indices_ok [1; -7; 2147483647; 0] /\
+  indices64_int_ok [1; -9223372036854775808; 9223372036854775807].
 Proof.
-  unfold extents_ok, indices_ok, is_int, int_max. cbn [Model.size List.length Z.of_nat].
+  unfold extents_ok, indices_ok, indices64_int_ok, is_int, is_int64, int_max. cbn [Model.size List.length Z.of_nat].
   repeat split; try (repeat constructor; cbn; Lia.lia); cbn; Lia.lia.
 Qed.
 
